@@ -63,7 +63,8 @@ def parse_dkvp(out):
     return recs
 
 
-def pmap(ctx, fn, jobs, workers=10):
+def pmap(ctx, fn, jobs, workers=None):
+    workers = workers or int(os.environ.get("VERIF_PAR", "2"))    # raise on an idle machine (mlr start-up costs ~1 s CPU)
     with ctx.timed("impl"):
         with ThreadPoolExecutor(max_workers=workers) as ex:
             return list(ex.map(fn, jobs))
@@ -141,7 +142,7 @@ def chains(ctx, props_ok):
     if not props_ok:
         return
     with ctx.timed("coq_cases"):
-        bad, err = coq_eval_mismatches(ctx, "C05chain", "Base.Record C05.Model C05.Harness", "chain_case", "chk_chain", terms, shard=10)
+        bad, err = coq_eval_mismatches(ctx, "C05chain", "Base.Record C05.Model C05.Harness", "chain_case", "chk_chain", terms, shard=len(terms) // 2 + 1)
     ctx.cov["correspondence"]["chains"] = {"cases": len(terms), "mismatches": len(bad)}
     if err:
         ctx.violation({"broken": "correspondence-evaluation C05chain", "detail": err[-2000:]}, found_input=False)
@@ -260,7 +261,7 @@ def multifile(ctx, props_ok, tmp):
     if not props_ok:
         return
     with ctx.timed("coq_cases"):
-        bad, err = coq_eval_mismatches(ctx, "C05files", "Base.Record C05.Model C05.Harness", "files_case", "chk_files", terms, shard=10)
+        bad, err = coq_eval_mismatches(ctx, "C05files", "Base.Record C05.Model C05.Harness", "files_case", "chk_files", terms, shard=len(terms) // 2 + 1)
     ctx.cov["correspondence"]["multi_file"] = {"cases": len(terms), "mismatches": len(bad)}
     if err:
         ctx.violation({"broken": "correspondence-evaluation C05files", "detail": err[-2000:]}, found_input=False)
@@ -346,7 +347,7 @@ def prepipe_race(ctx, d, data, want):
     """the prepipe child can exit before its output has been read: run the same prepipe'd input many times concurrently"""
     n = 40 if ctx.tier == "quick" else 400
     args = ["--prepipe", "cat", "put", '$nr = NR; $fnr = FNR', "plain.dkvp"]
-    results = pmap(ctx, lambda i: mlr(ctx, args, b"", cwd=d), range(n), workers=12)
+    results = pmap(ctx, lambda i: mlr(ctx, args, b"", cwd=d), range(n), workers=max(4, int(os.environ.get("VERIF_PAR", "2"))))
     short = [(st, out) for st, out, err in results if st == 0 and out != want]
     other = [(st, out, err) for st, out, err in results if st != 0]
     for i in range(n):
